@@ -1592,3 +1592,100 @@ fn check(tier: Tier, seed: u64) -> i32 {
 fn replay(_sub: &str, v: &Value) -> Result<Outcome, String> {
     replay_as::<Scenario>(v, &run)
 }
+
+// ---------------------------------------------------------------- coverage-guided tier
+
+/// Clamp a byte-decoded scenario (engine::bytesde) into exactly the domain of `strategy()` (sub
+/// `chains`): 2..=3 hosts, 0..=6 rules with exactly NCLASS table entries out of the generator's
+/// verdict set, 1..=4 actors on hosts 0..=2 with 0..=2 leading installs + 2..=14 operations in
+/// `op_strategy`'s ranges, and — only in the primitive mode — 0..=2 permanent rules, 0..=5
+/// scheduler actions (round < 10, pos < 4) and the late-guard-drop switch.
+pub fn fuzz_sanitize(sc: &mut Scenario) -> bool {
+    const DELAYS: [u32; 11] = [0, 300, 500, 999, 1000, 1001, 1500, 2000, 2500, 3000, 4000];
+    sc.nhosts = 2 + sc.nhosts % 2;
+    sc.rules.truncate(6);
+    for r in sc.rules.iter_mut() {
+        r.table.resize(NCLASS, V::Pass);
+        for v in r.table.iter_mut() {
+            if let V::Del(d) = v {
+                *d = DELAYS[(*d % 11) as usize];
+            }
+        }
+    }
+    let dest = |d: &mut Dest| {
+        if let Dest::Peer(k) = d {
+            *k %= 2;
+        }
+    };
+    sc.actors.truncate(4);
+    if sc.actors.is_empty() {
+        sc.actors.push(Actor { host: 0, ops: Vec::new() });
+    }
+    for a in sc.actors.iter_mut() {
+        a.host %= 3;
+        // ops = up to 2 leading installs ++ 2..=14 operations
+        let lead = a.ops.iter().take(2).take_while(|o| matches!(o, Op::Install(_))).count();
+        a.ops.truncate(14 + lead);
+        while a.ops.len() < 2 {
+            a.ops.push(Op::Sleep(1));
+        }
+        for o in a.ops.iter_mut() {
+            // The byte decoder picks the 8 `Op` variants uniformly, the generator gives tagged UDP
+            // sends 14/30 and forget / mem-forget / alias-drop / TCP transfers 1/30 each: three
+            // quarters of the decoded values of those four become UDP sends (fields from the
+            // value's bits; every UDP send is inside `op_strategy`'s domain at any position).
+            let udp_from = |x: u16, v6: bool| Op::Udp {
+                dst: match (x >> 5) & 7 {
+                    0..=4 => Dest::Peer(((x >> 4) & 1) as u8),
+                    5 => Dest::Loopback,
+                    6 => Dest::Own,
+                    _ => Dest::Nowhere,
+                },
+                port: ((x >> 3) & 1) as u8,
+                class: (x & 7) as u8,
+                v6,
+            };
+            let repl = match &*o {
+                Op::Forget(r) | Op::MemForget(r) | Op::DropAgain(r) if *r >= 64 => Some(udp_from(*r as u16, false)),
+                Op::Tcp { len, v6, .. } if *len % 4 != 0 => Some(udp_from(*len >> 2, *v6)),
+                _ => None,
+            };
+            if let Some(n) = repl {
+                *o = n;
+            }
+            match o {
+                Op::Install(r) | Op::DropGuard(r) | Op::Forget(r) | Op::MemForget(r) | Op::DropAgain(r) => *r %= 6,
+                Op::Udp { dst, port, class, .. } => {
+                    dest(dst);
+                    *port %= 2;
+                    *class %= NCLASS as u8;
+                }
+                Op::Tcp { dst, len, .. } => {
+                    dest(dst);
+                    let y = *len >> 2;
+                    *len = if y % 4 == 3 { 1000 + (y / 4) % 3000 } else { 1 + (y / 4) % 199 };
+                }
+                Op::Sleep(k) => *k %= 4,
+            }
+        }
+    }
+    if sc.mode == Mode::Prim {
+        sc.permanent.truncate(2);
+        for p in sc.permanent.iter_mut() {
+            *p %= 6;
+        }
+        sc.sched.truncate(5);
+        for s in sc.sched.iter_mut() {
+            s.round %= 10;
+            s.pos %= 4;
+            match &mut s.act {
+                SAct::Install(r) | SAct::DropGuard(r) | SAct::Forget(r) | SAct::MemForget(r) | SAct::DropAgain(r) => *r %= 6,
+            }
+        }
+    } else {
+        sc.permanent.clear();
+        sc.sched.clear();
+        sc.late_guard_drop = false;
+    }
+    true
+}
